@@ -2,7 +2,9 @@
    schema_of of openapi/v3/types.go schemafy / json_schema.go initAttributeValidation) vs
    the design's validations and vs the validation goa generates. *)
 From Coq Require Import QArith Lia.
-From Validation Require Import Model Schema Lemmas LemmasSchema.
+From Coq Require Import List Bool.
+From Validation Require Import Model Schema Lemmas LemmasSchema Routing LemmasRouting.
+Import ListNotations.
 Close Scope Q_scope.
 Open Scope nat_scope.
 
@@ -135,3 +137,71 @@ Example schema_example :
   schema_accepts otrue otrue e0 3 ex_att (VObj [VStr [97]%N; VArr [VNum (0 # 1)%Q]]) = false /\
   violations otrue otrue e0 3 ex_att (VObj [VStr [97]%N; VArr [VNum (0 # 1)%Q]]) = [(EInvalidRange, [PField 1; PElem])].
 Proof. repeat split; vm_compute; reflexivity. Qed.
+
+(* ================================================================== MODEL GROWTH: the documented OPERATION
+   An OpenAPI operation documents a request as a body schema plus one parameter object
+   (schema + required flag) per attribute routed to a header, a cookie or a path / query
+   parameter. With the routing model of Routing.v (httpRequestBody, initAttr): the body schema
+   is the schema of the payload attributes that stay, a parameter object accepts a value the
+   way a one-property object with the same required flag does. *)
+Definition operation_accepts (fmt_ok pat_ok : nat -> str -> bool) (E : env) (n : nat)
+    (m : mattr att) (r : routing) (l : list value) : bool :=
+  schema_accepts fmt_ok pat_ok E n (AObject (pick_fields (in_body r) (fields_of m)))
+                 (VObj (pick_values (in_body r) (fields_of m) l)) &&
+  forallb (fun fx => schema_accepts fmt_ok pat_ok E n (AObject [fst fx]) (VObj [snd fx]))
+          (combine (pick_fields (fun k => negb (in_body r k)) (fields_of m))
+                   (pick_values (fun k => negb (in_body r k)) (fields_of m) l)).
+
+(* On the faithful fragment, for every object payload and every mapping: the documented
+   operation accepts a request exactly when the PAYLOAD it carries satisfies the design's
+   validations - the contract is stated on the operation, the design on the payload *)
+Theorem operation_accepts_iff_payload_valid_partial :
+  forall (fmt_ok pat_ok : nat -> str -> bool) E fc, wf_env E = true -> env_schema_faithful E = true ->
+  forall n c (m : mattr att) (r : routing) l,
+    wf_att E (att_of m) = true -> schema_faithful E (att_of m) = true ->
+    wt_fields E fc c (fields_of m) l -> forallb dense l = true ->
+    (operation_accepts fmt_ok pat_ok E n m r l = true <-> violations fmt_ok pat_ok E n (att_of m) (VObj l) = []).
+Proof.
+  intros fmt_ok pat_ok E fc HE Hsf n c m r l Hwf Hfa Hwt Hd.
+  rewrite att_of_fields in Hwf, Hfa. cbn [wf_att schema_faithful] in Hwf, Hfa.
+  rewrite (payload_valid_iff_locations_valid_lemma fmt_ok pat_ok E n m r l).
+  unfold operation_accepts. rewrite andb_true_iff.
+  assert (H1 : schema_accepts fmt_ok pat_ok E n (AObject (pick_fields (in_body r) (fields_of m)))
+                 (VObj (pick_values (in_body r) (fields_of m) l)) = true <->
+               violations fmt_ok pat_ok E n (AObject (pick_fields (in_body r) (fields_of m)))
+                 (VObj (pick_values (in_body r) (fields_of m) l)) = []).
+  { apply (schema_matches fmt_ok pat_ok E fc HE Hsf n c true).
+    - cbn [wf_att]. now apply forallb_pick.
+    - cbn [schema_faithful]. now apply forallb_pick.
+    - apply wt_obj. now apply wt_fields_pick.
+    - discriminate.
+    - cbn [dense]. now apply dense_pick. }
+  rewrite H1. apply and_iff_compat_l. apply forallb_Forall_iff. intros fx Hin.
+  pose proof (wt_fields_pick E fc c (fun k => negb (in_body r k)) (fields_of m) l Hwt) as Hwp.
+  pose proof (dense_pick (fun k => negb (in_body r k)) (fields_of m) l Hd) as Hdp.
+  assert (Hf : In (fst fx) (fields_of m)).
+  { destruct fx as [f x]. apply in_combine_l in Hin. apply pick_fields_In in Hin. exact (proj1 Hin). }
+  apply (schema_matches fmt_ok pat_ok E fc HE Hsf n c true).
+  - cbn [wf_att forallb]. rewrite andb_true_r. exact (proj1 (forallb_forall _ _) Hwf _ Hf).
+  - cbn [schema_faithful forallb]. rewrite andb_true_r. exact (proj1 (forallb_forall _ _) Hfa _ Hf).
+  - apply wt_obj. exact (wt_fields_each E fc c _ _ Hwp fx Hin).
+  - discriminate.
+  - cbn [dense forallb]. rewrite andb_true_r. destruct fx as [f x]. apply in_combine_r in Hin.
+    exact (proj1 (forallb_forall _ _) Hdp _ Hin).
+Qed.
+Print Assumptions operation_accepts_iff_payload_valid_partial.
+
+(* non-vacuity: payload {0: required string, 1: integer >= 1 routed to a query parameter}:
+   the operation accepts (a, 3), refuses (a, 0) (parameter below its minimum) and refuses a
+   request without attribute 0 (required property of the body) *)
+Definition op_payload : mattr att :=
+  mkMA [(0, pstr); (1, APrim (mkV None None None None (Some (1 # 1)%Q) None None None None) false (PNum KInt))] [0].
+Definition op_routing : routing := mkRt [] [] [1] None [].
+Example operation_example :
+  operation_accepts otrue otrue e0 3 op_payload op_routing [VStr [97%N]; VNum (3 # 1)%Q] = true /\
+  operation_accepts otrue otrue e0 3 op_payload op_routing [VStr [97%N]; VNum (0 # 1)%Q] = false /\
+  operation_accepts otrue otrue e0 3 op_payload op_routing [VNull; VNum (3 # 1)%Q] = false /\
+  operation_accepts otrue otrue e0 3 op_payload op_routing [VStr [97%N]; VNull] = true /\
+  violations otrue otrue e0 3 (att_of op_payload) (VObj [VNull; VNum (3 # 1)%Q]) = [(EMissingField, [PField 0])].
+Proof. repeat split; vm_compute; reflexivity. Qed.
+
